@@ -205,11 +205,13 @@ class BaseCommand(FlockMixin, ABC):
 
         argv = sys.argv[:]
         argv[0] = Path(argv[0]).name
-        env = {
+        # The values of this run win over equally named variables of the process
+        # environment (e.g. when gallia is started from another run's hook).
+        env = os.environ | {
             "GALLIA_ARTIFACTS_DIR": str(self.artifacts_dir),
             "GALLIA_HOOK": variant.value,
             "GALLIA_INVOCATION": " ".join(argv),
-        } | os.environ
+        }
 
         if variant == HookVariant.POST:
             env["GALLIA_META"] = self.run_meta.json()
